@@ -27,7 +27,7 @@ def probes(rng, pool, n, inst=False):
     for _ in range(n):
         k = rng.random()
         if k < 0.1: out += ["in", rng.choice("sv"), G.candidate(rng, pool)]
-        elif k < 0.16: out += ["eqs", rng.choice("sX"), G.clause(rng, pool)]
+        elif k < 0.16: out += ["eqs", rng.choice("ssXXn"), G.clause(rng, pool)]
         else: out += ["c", rng.choice(["T", "T", "N", "N", "F"] + G.TRI_ARG), rng.choice(["N", "T", "F", "1", "0", "S", "E"]) if inst else "N", rng.choice("sv"), G.candidate(rng, pool)]
     return out
 
@@ -117,6 +117,9 @@ def streams(rng, tier):
         for _ in range(3): prog += ["c", rng.choice("TN"), "N", rng.choice("sv"), rng.choice(G.ARB_CANDS)]
         prog += ["eqs", rng.choice("sX"), rng.choice(cl)]
         out.append(Case("arbitrary-fold", "s.run", prog))
+    for t in G.ARB:
+        for cnd in G.ARB_CANDS:
+            out.append(Case("fixed", "s.run", ["S", "N", "===" + t, "c", "T", "N", "s", cnd, "c", "T", "N", "v", cnd, "str"]))
     for s, t in [(">=1,<2", "<2, >=1.0"), (">=1,<2", "<2"), ("", ""), ("", " , "), (">=1", "foo"), (">=1", ">=1,,bar"), ("===a,b", "===a,b"), ("==1.0", "==1.0.0"),
                  ("===1.0", "===1.0.0"), ("~=1.0", "~=1.0.0"), (">=1", ">= 1")]:
         out.append(Case("fixed", "s.run", ["S", "N", s, "eqs", "s", t, "eqs", "X", t]))
